@@ -13,7 +13,7 @@ from .exceptions import LabError, TaskNotFound
 from .monitor import TaskMonitor
 from .runners import ForkRunnerBackend, SerialRunnerBackend, SpawnRunnerBackend
 from .storage import LocalStorage, NullStorage
-from .tasks import get_direct_dependencies
+from .tasks import get_direct_dependencies, get_direct_dependency_instances
 from .types import LabContext, ResultMeta, ResultT, RunnerBackend, Storage, Task, TaskT, is_task, is_task_type
 from .utils import OrderedSet, base_tqdm, is_ipython, logger, tqdm, tqdm_notebook
 
@@ -64,14 +64,18 @@ class TaskState:
             self.processed_task_ids.add(id(task))
 
             dependency_tasks: OrderedSet[Task] = OrderedSet()
+            dependency_instances: list[Task] = []
             if not self.coordinator.use_cache(task):
                 dependency_tasks = get_direct_dependencies(task)
+                dependency_instances = get_direct_dependency_instances(task)
 
             # We insert all of the top-level tasks before processing
             # discovered dependencies, so that we will attempt to run
             # higher-level tasks as soon as possible.
             self.insert_task(task, dependency_tasks)
-            all_dependencies += dependency_tasks
+            # Process every instance of equal dependencies, so that all
+            # of them are updated when the task completes.
+            all_dependencies += dependency_instances
         if len(all_dependencies) > 0:
             self.process_tasks(all_dependencies)
 
